@@ -1477,7 +1477,9 @@ def stream_e2e(ck, rng, n):
 # --------------------------------------------------------------------------
 RULE = ("non-trivial = the command line selects at least one pass besides `default` or a mode / pass / implicit option "
         "contributes at least one definition beyond the -D options (distinct by configuration text + argv); "
-        "end-to-end cases: at least one line is attributed to a proper, non-empty subset of the platforms")
+        "end-to-end cases (1-2 sources, 1-3 platforms, user compiler with modes / passes incl. an include-only pass, -I directories holding "
+        "the same header name, twin commands that differ only in what they include): at least one line is attributed to a proper, "
+        "non-empty subset of the platforms")
 ASSUMPTIONS = [
     "re.findall, string.Template, str.split, tomllib, jsonschema and CPython 3.12 argparse are modelled, not verified; regex results are supplied to the model by the harness",
     "command lines contain no `--` element and no option value starting with `-` (C11's recorded classes D22 / D23)",
